@@ -102,6 +102,19 @@ Section Reopen.
     end.
 End Reopen.
 
+(* ---- the classes of the known findings of property C04, as booleans ---- *)
+(* K_reopen: the run re-opens a vertex *)
+Definition K_reopen {C St : Type} clt cadd czero cfloor g frontier traverse estimate init_state terminate
+           (fuel : nat) (d : dir) (source : nat) (target : option nat) : bool :=
+  negb (@no_reopen C St clt cadd czero cfloor g frontier traverse estimate init_state terminate fuel d source target).
+(* K_reverse_turn: a reverse search (the frontier model is shown the pair (later edge, earlier edge)) *)
+Definition K_reverse_turn (d : dir) : bool := match d with Reverse => true | Forward => false end.
+(* K_query_edges: the edge is the edge-oriented query's own origin or destination edge *)
+Definition K_query_edge (source : nat) (target : option nat) (e : nat) : bool :=
+  Nat.eqb e source || match target with Some t => Nat.eqb e t | None => false end.
+(* routes are read in travel order: a reverse search lists its route from the destination backwards *)
+Definition travel {A} (d : dir) (r : list A) : list A := match d with Forward => r | Reverse => rev r end.
+
 (* ------------------------------------------------------------------------------------------------
    D-REOPEN: vertices s=0 u=1 w=2 v=3 t=4; edges e0 s->u (10), e1 s->w (1), e2 w->u (1), e3 u->v (1),
    e4 v->t (100); the turn (e2, e3) is restricted; the estimate is inconsistent (h(w) = 50, 0 elsewhere), so
@@ -132,6 +145,41 @@ Module Witness.
   Definition run_dijkstra :=
     run_vertex_oriented Nat.ltb Nat.add 0 (fun c => c) graph5 frontier traverse (fun _ _ _ => Ok 0) init_state terminate 100 Forward 0 (Some 4).
 End Witness.
+
+(* ------------------------------------------------------------------------------------------------
+   The chain 0 -e0-> 1 -e1-> 2 -e2-> 3 -e3-> 4 under Dijkstra (estimate 0), unit costs.
+   WitnessQueryEdges: the frontier model refuses e0 (and nothing else); the edge-oriented query from e0 to e3
+     returns the route e0 e1 e2 e3.
+   WitnessReverseTurn: the turn e1 -> e2 is restricted; the reverse search from 4 to 0 never re-opens a vertex and
+     returns e3 e2 e1 e0, i.e. drives e1 then e2. *)
+Module Chain.
+  Definition graph5 : graph := mkGraph 5 [mkEdge 0 1; mkEdge 1 2; mkEdge 2 3; mkEdge 3 4].
+  Definition traverse (d : dir) (e : nat) (prev : option nat) (st : nat) : res (nat * nat * nat) := Ok (0, 1, st + 1).
+  Definition estimate (v t : nat) (st : nat) : res nat := Ok 0.
+  Definition init_state : res nat := Ok 0.
+  Definition terminate (size iters : nat) : option string := None.
+End Chain.
+Module WitnessQueryEdges.
+  Import Chain.
+  Definition ok (e : nat) : bool := negb (Nat.eqb e 0).
+  Definition frontier (e : nat) (st : nat) (prev : option nat) : res bool := Ok (ok e).
+  Definition run :=
+    run_edge_oriented 0 graph5 traverse init_state Forward
+      (run_vertex_oriented Nat.ltb Nat.add 0 (fun c => c) graph5 frontier traverse estimate init_state terminate 100 Forward)
+      0 (Some 3).
+  Definition route_edges : res (list (list nat)) := rmap (fun r => map (map (@et_edge nat nat)) (r_routes r)) run.
+End WitnessQueryEdges.
+Module WitnessReverseTurn.
+  Import Chain.
+  Definition restricted (p e : nat) : bool := Nat.eqb p 1 && Nat.eqb e 2.
+  Definition frontier (e : nat) (st : nat) (prev : option nat) : res bool :=
+    match prev with Some p => Ok (negb (restricted p e)) | None => Ok true end.
+  Definition run :=
+    run_vertex_oriented Nat.ltb Nat.add 0 (fun c => c) graph5 frontier traverse estimate init_state terminate 100 Reverse 4 (Some 0).
+  Definition route_edges : res (list (list nat)) := rmap (fun r => map (map (@et_edge nat nat)) (r_routes r)) run.
+  Definition reopens : bool :=
+    K_reopen Nat.ltb Nat.add 0 (fun c => c) graph5 frontier traverse estimate init_state terminate 100 Reverse 4 (Some 0).
+End WitnessReverseTurn.
 
 (* ------------------------------------------------------------------------------------------------
    Non-vacuity instance: class, vehicle, cut and turn restrictions active at once, concrete models of
